@@ -1,6 +1,7 @@
 (* Model of the routing-cost providers (C16).  No proofs in this file.
    Rust items modelled:
-     vrp-core/src/models/problem/costs.rs :: create_matrix_transport_cost_with_fallback   (build)
+     vrp-core/src/models/problem/costs.rs :: create_matrix_transport_cost_with_fallback   (build; with the `size * size` length
+                                             test of repair 17fc8e9 — build_prefix is the function before it)
      vrp-core/src/models/problem/costs.rs :: TimeAgnosticMatrixTransportCost::{new, duration_approx, distance_approx, duration, distance, size}
      vrp-core/src/models/problem/costs.rs :: TimeAwareMatrixTransportCost::{new, interpolate_duration, interpolate_distance, *_approx}
      vrp-core/src/models/problem/costs.rs :: SimpleTransportCost::{new, duration_approx, distance_approx}
@@ -51,7 +52,7 @@ Fixpoint bsearch (l : list Z) (x : Z) : bs :=
 (* ------------------------------------------------------------------ core data *)
 Record matrix := mkM { m_index : nat; m_ts : option Q; m_dur : list Q; m_dist : list Q }.
 
-Inductive berr := ENoData | ELenDiffer | EDistLen | EDurLen | EAgnTimestamp | EDupProfiles | EMissingTs | ESingleMatrix.
+Inductive berr := ENoData | ELenDiffer | EDistLen | EDurLen | ENotSquare | EAgnTimestamp | EDupProfiles | EMissingTs | ESingleMatrix.
 Inductive provider :=
 | PAgnostic (durs dists : list (list Q)) (size : nat)
 | PAware (costs : list matrix) (size : nat).
@@ -86,6 +87,22 @@ Definition build_aware (costs : list matrix) (size : nat) : result provider :=
   else Ok (PAware costs size).
 
 Definition build (costs : list matrix) : result provider :=
+  match costs with
+  | [] => Err ENoData
+  | c0 :: _ =>
+    let size := rsqrt (length (m_dur c0)) in
+    if existsb (fun m => negb (length (m_dist m) =? length (m_dur m))%nat) costs then Err ELenDiffer
+    else if existsb (fun m => negb (rsqrt (length (m_dist m)) =? size)%nat) costs then Err EDistLen
+    else if existsb (fun m => negb (rsqrt (length (m_dur m)) =? size)%nat) costs then Err EDurLen
+    else if existsb (fun m => negb (((length (m_dist m) =? size * size) && (length (m_dur m) =? size * size))%nat)) costs
+         then Err ENotSquare                                   (* since repair 17fc8e9 (finding C16-F1) *)
+    else if existsb has_ts costs then build_aware costs size
+    else build_agnostic costs size
+  end.
+
+(* the function as it was before repair 17fc8e9: squareness only tested through the rounded square root (finding C16-F1);
+   kept only for the witness theorem about the pre-fix code *)
+Definition build_prefix (costs : list matrix) : result provider :=
   match costs with
   | [] => Err ENoData
   | c0 :: _ =>
@@ -316,7 +333,7 @@ Definition mkMz (i : nat) (ts : option (Z * Z)) (du di : list Z) : matrix :=
 
 Definition berr_code (e : berr) : Z :=
   match e with ENoData => 1 | ELenDiffer => 2 | EDistLen => 3 | EDurLen => 4 | EAgnTimestamp => 5
-             | EDupProfiles => 6 | EMissingTs => 7 | ESingleMatrix => 8 end.
+             | EDupProfiles => 6 | EMissingTs => 7 | ESingleMatrix => 8 | ENotSquare => 9 end.
 
 (* harness fallback: duration from*1000+to+7, distance from*1000+to+9 *)
 Definition test_fb (off : Z) (on : bool) : fallback :=
